@@ -67,7 +67,7 @@ THEOREMS = [
 #   1 = proposed_fixes/C17-F17ab.patch (streaming tool path + call numbering), 2 = C17-F17c.patch (in /repo),
 #   4 = C17-F17b.patch alone (non-stream call numbering), 8 = C17-F17d.patch (run without done -> error).
 # One edit when the lead applies a fix (or VERIF_C17_VARIANT for a scratch worktree).
-VARIANT = 2  # F17c fixed in /repo (499276761)
+VARIANT = 14  # fixed in /repo: F17c (499276761, bit 2), F17b (bit 4), F17d (bit 8)
 OVERLAY = {"server/zz_verif_c17_test.go": "server/zz_verif_c17_test.go"}
 
 
